@@ -310,7 +310,15 @@ func Observe(qf qframe.QFrame) (*Frame, error) {
 
 // ObserveGuard is Observe with panics converted to errors.
 func ObserveGuard(qf qframe.QFrame) (f *Frame, err error) {
-	pv, _ := fw.Guard(func() { f, err = Observe(qf) })
+	pv, _ := fw.Guard(func() {
+		if qf.Err == nil {
+			if ierr := hooks.CheckInvariants(qf); ierr != nil {
+				err = fmt.Errorf("structural invariant of the frame violated: %v", ierr)
+				return
+			}
+		}
+		f, err = Observe(qf)
+	})
 	if pv != nil {
 		return nil, fmt.Errorf("panic while observing: %v", pv)
 	}
